@@ -65,7 +65,11 @@ def fold_op(proj, cell, weights="opaque", below_threshold=False, prepare=None):
     for k, v in res.attrs["orders"].items():
         vals, errs = v[0], v[1]
         orders[k] = (_rows(vals), _rows(errs))
-    return FoldedOp(cell, orders, pids, ev, runner)
+    fo = FoldedOp(cell, orders, pids, ev, runner)
+    fo.res_x = S.num_norm(res.attrs.get("x"))
+    fo.res_Q2 = S.num_norm(res.attrs.get("Q2"))
+    fo.res = res
+    return fo
 
 
 def _rows(a):
